@@ -149,6 +149,10 @@ def worker(chunk, seed, tier):
                 info = {"source": "generated", "target": target, "allow_changes": allow, **case}
                 try:
                     src, _meta = wfn.build(case, target, seed)
+                except wfn.Infeasible:
+                    part.outcome("generator", "infeasible")
+                    part.cov["infeasible_cases"] = part.cov.get("infeasible_cases", 0) + 1
+                    continue
                 except Exception as exc:  # noqa: BLE001
                     raise RuntimeError(f"harness cannot build {case}: {exc!r}") from exc
                 tag = f"{target}:allow={allow}"
